@@ -100,6 +100,19 @@ CHECKS["C01"] = dict(level="exploration", engine="E3+E1", ref="5/C01",
    technique="deviation-bounded exhaustive enumeration: all grammar-generated seed datagrams and their complete 1-deviation closure through the real HandleMsg4/6 under plugin chains (one process per chain), plus all datagram sequences up to depth 2/3 on fresh lease plugins",
    text="~770 DHCPv4 and ~1930 DHCPv6 grammar seeds (message types x hardware-address lengths x option sets x relay nesting up to the deepest that fits a datagram) plus all byte strings of length 0..2 are handled by the real per-datagram entry points under every single built-in plugin, the example-config chains and full chains in three rotations (thorough: every ordered pair of plugins), for bound/unbound listeners with/without receive control message; for the full chains also every truncation, single-bit flip, boundary-byte substitution and adjacent option swap of the seeds (quick: 64 seeds per chain). Every sequence of up to 2 (thorough 3) state-relevant datagrams runs on fresh range/prefix instances. Oracle: no panic, at most one reply, lease-plugin mutex free afterwards, the probe client still served at the end, no datagram exceeds the watchdog; a worker that dies (log.Fatal, fatal error) is re-run alone and reported.",
    note="Socket writes are captured by hook H1. Datagrams more than one deviation away from a seed and chains of 3+ plugins beyond the listed ones are not explored. Hang detection uses a 20 s per-datagram watchdog confirmed by a re-run.")
+CHECKS["C02"]["text"] += " An 'age' operation (hook VerifAge: every stored lease made two hours older, in memory and in sqlite) stands in for elapsed time, with a per-client 'expired' flag in the state key; ranges crossing a /24 boundary are part of the graphs."
+CHECKS["C03"]["text"] += " The promised end of lease is read from the reply's option 51 (also under a lease_time-before-range chain); aging, a renewal after a real 2 s delay, and statement-level crash points (database copied before every statement of the handler and storage code on all histories of up to 2/3 requests) are included."
+CHECKS["C08"]["text"] += " Time passing is an operation of the alphabet (all leases aged by more than an hour through hook VerifAge); a many-leases sweep gives one client 1..12 prefixes on a 32-block pool."
+CHECKS["C09"]["text"] += " Aging and the many-leases sweep as in C08."
+CHECKS["C05"]["text"] += " Big-pool fills (2^17 IPv6 blocks, 70 000 IPv4 addresses) to exhaustion."
+CHECKS["C06"]["text"] += " Frees of prefixes of the other address family whose low bits spell a block are part of the alphabet."
+CHECKS["C13"]["text"] += " Each chain's request is delivered through the real Serve loop under the cooperative scheduler (default schedule), and a sixth behaviour 'replace and stop' is part of the alphabet."
+CHECKS["C17"]["text"] += " Dual-stack vectors configure the same plugin under server6 and server4 with different values through the real loader."
+CHECKS["C19"]["text"] += " Dual-stack configurations of every dual plugin go through plugins.LoadPlugins."
+CHECKS["C01"]["text"] += " The lookup-during-reload scenarios of C16 are explored under all schedules up to the preemption bound for deadlocks and locks left held."
+CHECKS["C15"]["text"] += " Every ordered pair of 16 representative requests is also run on ONE listener (unbound and bound): listener state must not influence the next reply."
+for k in ("C02","C03","C04","C05","C06","C07","C08","C09"):
+    CHECKS[k]["note"] += " Explorations run in a worker process; every call into the code under test is bracketed by a 30 s watchdog (a reproducible hang or fatal error is reported as a violation, a panic in checker code as exit 2). If the state key turns out not to determine behaviour the configuration is re-explored without merging to depth 4."
 ALL = ["C%02d" % i for i in range(1, 21)]
 NA_REASON = "check not built yet in this session (planned, see DESIGN.md section 5); will be claimed once its machinery exists"
 m = {
